@@ -55,9 +55,31 @@ def observe(h):
                 kind = 'notbuilt' if rbuild.build_num.is_fake_not_built() else 'build'
                 entries.append({'kind': kind, 'commit': rbuild.rcommit.commit.intid, 'listed': listed})
         report[rb.branch_name] = entries
-    # printed form must list the same commits (ties the printed report to the data)
-    text = str(coll.make_report('BUG-7').ch_text(no_color=True).plain_text()) if False else None
-    return {'h': h, 'report': report, 'order': order}
+    # the printed report must list the same builds and commits as the data
+    text = coll.make_report('BUG-7').ch_text(no_color=True).plain_text()
+    printed, porder, cur = {}, [], None
+    for ln in text.split('\n'):
+        st = ln.strip()
+        m = re.match(r'^r1 (\S+):$', st)
+        if m:
+            cur = m.group(1)
+            porder.append(cur)
+            printed[cur] = []
+            continue
+        if cur is None or not st:
+            continue
+        if st.startswith('- not built -'):
+            printed[cur].append({'kind': 'notbuilt', 'commit': h['head'][cur], 'listed': []})
+        elif st.startswith('- not merged -'):
+            printed[cur].append({'kind': 'notmerged', 'commit': 0, 'listed': []})
+        elif re.match(r'^1\.0\.\d+', st):
+            printed[cur].append({'kind': 'build', 'commit': int(st.split()[0].split('.')[2].split('-')[0]) - 100, 'listed': []})
+        elif re.match(r'^[0-9a-f]\d{5}[0-9a-f]{5} ', st):
+            printed[cur][-1]['listed'].append(int(st[1:6]))
+    mismatch = None
+    if porder != order or printed != report:
+        mismatch = 'printed report %s %s differs from the report data %s %s' % (porder, printed, order, report)
+    return {'h': h, 'report': report, 'order': order, 'print_mismatch': mismatch}
 
 
 class _Hang(Exception):
@@ -131,7 +153,9 @@ def run(ctx):
         if 'error' in o:
             ctx.violation({'h': o['h']}, 'make_reports_data raised %s' % o['error'])
         else:
-            cases.append(o)
+            if o.get('print_mismatch'):
+                ctx.violation({'h': o['h'], 'printed': True}, o['print_mismatch'])
+            cases.append({k: o[k] for k in ('h', 'report', 'order')})
     # synthetic self-test: a report that lists a matching commit under a later build than the earliest one
     hsyn = {'n': 3, 'parents': [[], [1], [2]], 'match': [True, False, False], 'tagged': [False, True, True], 'head': {'master': 3}}
     good = {'h': hsyn, 'report': {'master': [{'kind': 'build', 'commit': 2, 'listed': [1]}]}, 'order': ['master']}
@@ -167,6 +191,9 @@ def replay(ctx, case):
     o = _job(case['h'])
     if 'error' in o:
         return o['error']
+    if case.get('printed'):
+        return o.get('print_mismatch')
+    o = {k: o[k] for k in ('h', 'report', 'order')}
     v = judge(ctx, [o])[1]
     if v['__order__'][0] != 'ORDER-OK':
         return 'branch order %s' % o['order']
